@@ -644,6 +644,9 @@ def rule_check_finite(rep: Report, repo: Repo):
     arg = [a.arg for a in f.args.args if a.arg != "self"]
     if len(arg) != 1:
         raise AnalysisError(R, "unexpected signature of _check_finite")
+    from . import absval as _av
+    _av.HELPERS.clear()
+    _av.HELPERS.update({n.name: n for n in tree.body if isinstance(n, ast.FunctionDef)})  # module-level predicates it may call
     for m in members:
         for kind in ("good", "bad"):
             for r in REPRESENTATIVES[m][kind]:
